@@ -2635,6 +2635,11 @@ EB_API EbErrorType svt_get_sequence_info(const uint8_t *obu_data, size_t size,
         if (status != EB_ErrorNone)
             return status;
 
+        // the OBU (header, size field and payload) must lie inside the remaining data
+        if (frame_sz < ou.size + length_size ||
+            frame_sz - (ou.size + length_size) < ou.payload_size)
+            return EB_Corrupt_Frame;
+
         frame_buf += ou.size + length_size;
         frame_sz -= (uint32_t)(ou.size + length_size);
 
